@@ -103,6 +103,8 @@ def render_order(idx, t):
     exp_u = tree_text(t, unordered, [0])
     staggered = [f"Mk::g.each_call(matching!((x) if *x >= {n - 1 - i})).returns({300 + i}u32)" for i in range(n)]
     exp_s = tree_text(t, staggered, [0])
+    spread = [f"Mk::{'g' if (i * i + i // 3) % 2 == 0 else 'h'}.each_call(matching!((x) if *x >= {n - 1 - i})).returns({800 + i}u32)" for i in range(n)]
+    exp_sp = tree_text(t, spread, [0])
     # ordered clauses interleaved with exactly quantified unordered clauses of another method
     mixed = [f"Mk::f.next_call(matching!({i})).returns({100 + i}u32)" if i % 2 == 0 else f"Mk::h.some_call(matching!({i})).returns({400 + i}u32).once()" for i in range(n)]
     exp_m = tree_text(t, mixed, [0])
@@ -211,6 +213,17 @@ def render_order(idx, t):
                 other => return Err(format!("g({{x}}) must be answered by clause {{i}} of {n} staggered clauses: {{other:?}}")),
             }}
         }}
+        // the same with the clauses spread over two methods in an irregular pattern (the clause list
+        // is not grouped by method): each method's clauses keep their relative order
+        let u = Unimock::new({exp_sp}).no_verify_in_drop();
+        for i in 0..{n}u8 {{
+            let x = {n}u8 - 1 - i;
+            let on_g = (i as usize * i as usize + i as usize / 3) % 2 == 0;
+            match vh::obs::catch(|| if on_g {{ u.g(x) }} else {{ u.h(x) }}) {{
+                Ok(v) if v == 800 + i as u32 => {{}}
+                other => return Err(format!("{{}}({{x}}) must be answered by clause {{i}} of {n} staggered clauses spread over two methods: {{other:?}}", if on_g {{ "g" }} else {{ "h" }})),
+            }}
+        }}
         Ok(())
     }}
 """
@@ -285,7 +298,11 @@ def instances(tier):
     for n in range(2, 16):
         shapes.append([flat(n), None])
         shapes.append([None, flat(n)])
+    # more than 20 terminal clauses (only reachable by nesting)
+    shapes.append([flat(16), flat(8)])
+    shapes.append([flat(7), flat(7), flat(7), None])
     if tier != "quick":
+        shapes.append([flat(16), flat(16), flat(16)])
         shapes.append([flat(16), flat(16)])
         shapes.append([flat(8), [flat(8), flat(3)], None])
     seen = set()
@@ -364,7 +381,7 @@ def run(pid, tier, replay, start):
     cov = {
         "evaluations": len(kept) + ts["words"] + (2 if nolock["ran"] else 0),
         "distinct_nontrivial": len(set(i.key for i in kept)) + ts["words"],
-        "rule": "order: every flat tuple arity 2..16, every nesting tree with <= 7 (quick: 5) leaves whose inner nodes have >= 2 children, unit elements at every position, every arity nested on either side of another tuple; rejection: ordered+unordered clauses of one method at every pair of positions for every arity 2..16 (quick: arities 2, 3, 16 and the end positions of the others), both orders, and an empty stub at every position of arities 1..6; compile time: every builder word up to the length bound against the reference automaton; the construction cells in the feature set without mutex (single-use returns refused) and in the no_std feature set with the spin-lock mutex (everything constructs); all instances are non-trivial and distinct by construction",
+        "rule": "order: every flat tuple arity 2..16, every nesting tree with <= 7 (quick: 5) leaves whose inner nodes have >= 2 children, unit elements at every position, every arity nested on either side of another tuple, nested tuples with 22-48 leaves (staggered overlapping clauses spread over two methods); rejection: ordered+unordered clauses of one method at every pair of positions for every arity 2..16 (quick: arities 2, 3, 16 and the end positions of the others), both orders, and an empty stub at every position of arities 1..6; compile time: every builder word up to the length bound against the reference automaton; the construction cells in the feature set without mutex (single-use returns refused) and in the no_std feature set with the spin-lock mutex (everything constructs); all instances are non-trivial and distinct by construction",
         "samples": [{"shape": kept[3].key, "code": kept[3].code[:900]}],
         "exhaustive": True,
         "instances_by_kind": kinds,
